@@ -449,7 +449,14 @@ func check(prop, tier string, seed uint64) int {
 		report = minimiseAndReport(bt, prop, tier, seed, f)
 		code = 1
 	}
-	writeEvidence(prop, tier, seed, a, bt, lcs, time.Since(t0).Seconds(), len(finds), nworkers, known)
+	isoNames := []string{}
+	for li, on := range isolated {
+		if on {
+			isoNames = append(isoNames, lcs[li].Name)
+		}
+	}
+	sort.Strings(isoNames)
+	writeEvidence(prop, tier, seed, a, bt, lcs, time.Since(t0).Seconds(), len(finds), nworkers, known, isoNames)
 	if report != nil {
 		path := filepath.Join(verifDir, "replays", fmt.Sprintf("%s-%s-%d-%d.json", prop, report.Lane, seed, report.Run))
 		os.MkdirAll(filepath.Dir(path), 0o755)
